@@ -596,6 +596,133 @@ func ptrProp(c PtrCase, r *pbt.R) error {
 	return nil
 }
 
+// ---------------------------------------------------------------------------
+// bulk: deep stacks (hundreds to thousands of elements), observed at the phase boundaries
+
+// BulkCase: Phases are (kind, count): 0 = Push count elements (a running counter 1, 2, 3, ...: every element unique, the zero
+// value never pushed), 1 = Pop count times (whatever the depth). The linked stack starts with [1].
+type BulkCase struct {
+	Linked bool     `json:"linked"`
+	Phases [][2]int `json:"phases"`
+}
+
+var bulkCounts = []int{1, 2, 5, 31, 32, 33, 63, 64, 65, 100, 127, 128, 129, 255, 256, 257, 300, 511, 512, 513, 1000, 1023, 1024, 1025, 2000, 4097}
+
+func bulkGen(s pbt.Src, thorough bool) BulkCase {
+	c := BulkCase{Linked: pbt.Bool(s)}
+	max := 8
+	if thorough {
+		max = 16
+	}
+	c.Phases = pbt.Seq(s, 2, max, func(s pbt.Src) [2]int {
+		n := bulkCounts[s.Intn(len(bulkCounts))]
+		if s.Intn(4) == 0 {
+			n = 1 + s.Intn(3000)
+		}
+		return [2]int{s.Intn(2), n}
+	})
+	return c
+}
+
+func bulkProp(c BulkCase, r *pbt.R) error {
+	var st stk
+	var model []int
+	next := 0
+	name := "stack.New[int]()"
+	if c.Linked {
+		next = 1
+		st = stack.NewLinked(1)
+		model = []int{1}
+		name = "stack.NewLinked(1)"
+	} else {
+		st = stack.New[int]()
+	}
+	carve := c.Linked && r.KF(kfPopBelow)
+	total, maxDepth := 0, 0
+	popOne := func(ctx func() string, i int) error {
+		got := st.Pop()
+		if len(model) == 0 {
+			if got != 0 {
+				return fmt.Errorf("%s: Pop #%d on the empty stack returned %d, want the zero value", ctx(), i, got)
+			}
+			return nil
+		}
+		want := model[len(model)-1]
+		model = model[:len(model)-1]
+		if carve {
+			r.Excluded(kfPopBelow) // open finding: the value LStack.Pop returns is not compared, its effect is
+		} else if got != want {
+			return fmt.Errorf("%s: Pop #%d returned %d, want %d (%d elements held before)", ctx(), i, got, want, len(model)+1)
+		}
+		return nil
+	}
+	for pi, ph := range c.Phases {
+		kind, n := ((ph[0]%2)+2)%2, ph[1]
+		if n < 0 || n > 5000 || total > 40000 {
+			return nil
+		}
+		total += n
+		ctx := func() string { return fmt.Sprintf("%s, phases (0 Push n, 1 Pop n) %v, in phase %d", name, c.Phases[:pi+1], pi) }
+		if kind == 0 {
+			for i := 0; i < n; i++ {
+				next++
+				st.Push(next)
+				model = append(model, next)
+			}
+		} else {
+			for i := 0; i < n; i++ {
+				if err := popOne(ctx, i+1); err != nil {
+					return err
+				}
+				if i%64 == 0 && st.Size() != len(model) {
+					return fmt.Errorf("%s: after Pop #%d Size() = %d, want %d", ctx(), i+1, st.Size(), len(model))
+				}
+			}
+		}
+		if len(model) > maxDepth {
+			maxDepth = len(model)
+		}
+		if got := st.Size(); got != len(model) {
+			return fmt.Errorf("%s: Size() = %d, want %d", ctx(), got, len(model))
+		}
+		probe := map[int]bool{0: false, next + 1: false}
+		wantTop := 0
+		if len(model) > 0 {
+			wantTop = model[len(model)-1]
+			probe[model[0]], probe[wantTop], probe[model[len(model)/2]] = true, true, true
+			if wantTop < next {
+				probe[wantTop+1] = false // popped last
+			}
+		}
+		if got := st.Peek(); got != wantTop {
+			return fmt.Errorf("%s: Peek() = %d, want %d (%d elements held)", ctx(), got, wantTop, len(model))
+		}
+		for v, want := range probe {
+			if got := st.Search(v); got != want {
+				return fmt.Errorf("%s: Search(%d) = %v, want %v (%d elements held)", ctx(), v, got, want, len(model))
+			}
+		}
+	}
+	ctx := func() string { return fmt.Sprintf("%s, phases %v, final drain", name, c.Phases) }
+	for i := 1; len(model) > 0; i++ {
+		if err := popOne(ctx, i); err != nil {
+			return err
+		}
+	}
+	if got := st.Size(); got != 0 {
+		return fmt.Errorf("%s: Size() = %d afterwards", ctx(), got)
+	}
+	if got := st.Pop(); got != 0 || st.Size() != 0 {
+		return fmt.Errorf("%s: Pop on the drained stack returned %d, Size() = %d", ctx(), got, st.Size())
+	}
+	st.Push(7)
+	if st.Size() != 1 || st.Peek() != 7 || !st.Search(7) {
+		return fmt.Errorf("%s: after Push(7) on the drained stack Size() = %d, Peek() = %d, Search(7) = %v", ctx(), st.Size(), st.Peek(), st.Search(7))
+	}
+	r.NonTrivialIf(maxDepth >= 256, "held >= 256 elements at some point")
+	return nil
+}
+
 func TestProp(t *testing.T) {
 	lifoQ, obsQ := enumLens(false)
 	lifoT, obsT := enumLens(true)
@@ -635,6 +762,13 @@ func TestProp(t *testing.T) {
 			Prop:       ptrProp,
 			OutOfEnum:  func(c PtrCase, th bool) bool { return len(c.Ops) > 5 },
 			RapidQuick: 200, RapidThorough: 3000,
+		},
+		&pbt.Check[BulkCase]{
+			Name: "bulk",
+			Rule: "deep stacks, both implementations: 2..8 (thorough 16) phases of Push n (a running counter: every element unique) / Pop n (whatever the depth) with n around the powers of two up to 4097 or random up to 3000; every Pop result is compared with the model (linked stack: subject to the open finding), " +
+				"Size every 64 Pops, and at every phase boundary Size, Peek and Search of the bottom, middle and top elements, of the element popped last, of the zero value and of a value never pushed; final drain, Pop on the drained stack, Push on it. Random only. Non-trivial = the stack held >= 256 elements at some point.",
+			Gen: bulkGen, Prop: bulkProp, OutOfEnum: func(BulkCase, bool) bool { return true },
+			RapidQuick: 400, RapidThorough: 6000,
 		},
 	)
 }
